@@ -121,6 +121,7 @@ type Env struct {
 	Verbose bool
 	T0 time.Time
 	T  *Track
+	Shadow *shadow
 }
 
 // BlockResp records the observer's responses for cross-replica comparison.
@@ -140,6 +141,9 @@ func NewEnv(cfg Config) *Env {
 }
 
 func (e *Env) Close() {
+	if e.Shadow != nil {
+		e.Shadow.r.Close()
+	}
 	if e.R != nil {
 		e.R.Close()
 	}
@@ -372,6 +376,7 @@ func (e *Env) RunBlock(st *Step) {
 	b := e.Seq.NextBlock(time.Duration(dt)*time.Second, nil, absent, nil)
 	e.Blk = b
 	resp := &BlockResp{}
+	var codes []uint32
 	bb, pi := e.R.BeginBlock(b)
 	if pi != nil {
 		e.onPanic(pi)
@@ -400,6 +405,7 @@ func (e *Env) RunBlock(st *Step) {
 				return
 			}
 			b.Txs = append(b.Txs, txb)
+			codes = append(codes, res.Code)
 			resp.Txs = append(resp.Txs, txRespDigest(&res))
 			key := op.K + ":ok"
 			if res.Code != 0 {
@@ -418,6 +424,9 @@ func (e *Env) RunBlock(st *Step) {
 	}
 	resp.End = endRespDigest(&eb)
 	e.observe("end", nil, nil, nil, eb.Events, nil)
+	if e.Shadow != nil {
+		e.shadowBlock(b, codes)
+	}
 	hashv, pi := e.R.Commit()
 	if pi != nil {
 		e.onPanic(pi)
@@ -444,6 +453,10 @@ func trunc(s string, n int) string {
 
 // RunStep executes one trace step.
 func (e *Env) RunStep(st *Step) {
+	if st.Regen {
+		e.Regen(40)
+		return
+	}
 	if st.Idle > 0 {
 		for i := 0; i < st.Idle && !e.Dead; i++ {
 			e.RunBlock(&Step{Dt: 5})
